@@ -19,7 +19,6 @@ import (
 	"path/filepath"
 	"regexp"
 	"runtime"
-	"runtime/debug"
 	"sort"
 	"strconv"
 	"strings"
@@ -43,7 +42,7 @@ func verifDir() string {
 }
 
 func main() {
-	debug.SetMaxStack(256 << 20)
+	// (the Go default stack limit of 1 GB is kept so that the simulated CLI overflows where the real one would)
 	if len(os.Args) < 2 {
 		fatal2("usage: bornosim check|worker|replay|one ...")
 	}
